@@ -255,3 +255,40 @@ func isNilIdent(c *Ctx, e ast.Expr) bool {
 }
 
 func exprString(e ast.Expr) string { return types.ExprString(e) }
+
+// rangeElemsOf: v is the value variable of a range statement over a composite literal (given in place or through a
+// local variable defined once by such a literal); returns the element expressions of that literal.
+func (c *Ctx) rangeElemsOf(fd *ast.FuncDecl, v types.Object) []ast.Expr {
+	if v == nil {
+		return nil
+	}
+	var out []ast.Expr
+	ast.Inspect(fd.Body, func(n ast.Node) bool {
+		rs, ok := n.(*ast.RangeStmt)
+		if !ok || rs.Value == nil {
+			return true
+		}
+		vid, ok := rs.Value.(*ast.Ident)
+		if !ok || c.objOf(vid) != v {
+			return true
+		}
+		x := unparen(rs.X)
+		if id, ok := x.(*ast.Ident); ok {
+			ds := c.localDefs(fd)[c.objOf(id)]
+			if len(ds) == 1 && ds[0] != nil {
+				x = unparen(ds[0])
+			}
+		}
+		if lit, ok := x.(*ast.CompositeLit); ok {
+			for _, el := range lit.Elts {
+				if kv, ok := el.(*ast.KeyValueExpr); ok {
+					out = append(out, kv.Value)
+				} else {
+					out = append(out, el)
+				}
+			}
+		}
+		return true
+	})
+	return out
+}
